@@ -82,6 +82,15 @@ func vh_C01_selftest() {
 	}
 }
 
+// vxWitness: an arbitrary index 0 <= w <= n; callers guard uses with w < n, so
+// that "for every index" is decided as unsatisfiability of "exists an index".
+func vxWitness(n int) int {
+	w := vxInt()
+	vxAssume(0 <= w)
+	vxAssume(w <= n)
+	return w
+}
+
 // vxPrevRaw: the Raw buffer left behind by an earlier use (nil, or any length/capacity/content).
 func vxPrevRaw() []byte {
 	if vxChoose(2) == 0 {
@@ -118,10 +127,9 @@ func vh_C01_copying() {
 	}
 	vxAssert(!vxSameObject(m.Raw, data), "Raw is a private copy, not the caller's buffer")
 	vxAssert(len(m.Raw) == len(data), "Raw holds exactly the input")
-	w := vxInt()
-	vxAssume(0 <= w)
-	vxAssume(w < len(data))
-	vxAssert(m.Raw[w] == data[w], "Raw holds exactly the input bytes")
+	if w := vxWitness(len(data)); w < len(data) {
+		vxAssert(m.Raw[w] == data[w], "Raw holds exactly the input bytes")
+	}
 	if err != nil {
 		vxReach("reject")
 		return
